@@ -26,6 +26,12 @@ class Renamer(ast.NodeTransformer):
             node.arg = self.roles[node.arg]
         return node
 
+    def visit_ExceptHandler(self, node):
+        self.generic_visit(node)
+        if node.name in self.roles:
+            node.name = self.roles[node.name]
+        return node
+
 
 def norm(node, roles=None):
     import copy
@@ -45,6 +51,115 @@ def strip_doc(body):
 
 def stmts(body, roles=None):
     return [norm(s, roles) for s in strip_doc(body)]
+
+
+# ---------------------------------------------------------------------------------------------
+# spelling-independent statement text (round 6)
+#
+# The statement-text facts are compared with reference tables in coq/Model/TransferBytes.v.  Two
+# things a maintainer may change without changing what the code does must not show up in them:
+#  * the spelling of LOCAL variables: they are alpha-renamed L0, L1, .. in order of first
+#    occurrence in the printed statements.  Parameters, free variables (names of an enclosing
+#    function, globals, attributes, keyword names) are kept: they are the function's interface.
+#    Where the WHOLE body of a function is printed the binding of every local is part of the
+#    text, so this is plain alpha-equivalence; where only a slice is printed (the dispatcher) the
+#    locals the property depends on are first resolved by WHAT THEY ARE BOUND TO (roles).
+#  * early exit vs. else: `if T: A else: B` with A ending in return/raise/continue/break is
+#    printed `if T: A` ; B, and `if not X: A` ; B (A and B both ending in such a statement, B up
+#    to the end of its block) is printed `if X: B` ; A.  Both are equivalences of Python
+#    programs (the only paths out of A and B are their final statements).
+TERMINAL = (ast.Return, ast.Raise, ast.Continue, ast.Break)
+
+
+def _ends_terminal(block):
+    return bool(block) and isinstance(block[-1], TERMINAL)
+
+
+def canon_block(block):
+    out = list(block)
+    i = 0
+    while i < len(out):
+        st = out[i]
+        if isinstance(st, ast.If):
+            if st.orelse and _ends_terminal(st.body):
+                out[i + 1 : i + 1] = st.orelse
+                st.orelse = []
+            if (
+                not st.orelse
+                and isinstance(st.test, ast.UnaryOp)
+                and isinstance(st.test.op, ast.Not)
+                and _ends_terminal(st.body)
+                and _ends_terminal(out[i + 1 :])
+            ):
+                rest, early = out[i + 1 :], st.body
+                st.test, st.body = st.test.operand, rest
+                out[i + 1 :] = early
+        i += 1
+    for st in out:
+        if isinstance(st, (ast.FunctionDef, ast.AsyncFunctionDef, ast.ClassDef)):
+            continue
+        for field in ("body", "orelse", "finalbody"):
+            sub = getattr(st, field, None)
+            if isinstance(sub, list) and sub and isinstance(sub[0], ast.stmt):
+                setattr(st, field, canon_block(sub))
+        for h in getattr(st, "handlers", []) or []:
+            h.body = canon_block(h.body)
+    return out
+
+
+def fn_params(fn):
+    a = fn.args
+    names = {x.arg for x in a.posonlyargs + a.args + a.kwonlyargs}
+    for x in (a.vararg, a.kwarg):
+        if x is not None:
+            names.add(x.arg)
+    return names
+
+
+def fn_locals(fn):
+    """names bound inside fn (assignment / for / with / except targets, parameters of nested lambdas and
+    defs), minus fn's own parameters and anything declared global / nonlocal"""
+    a = fn.args
+    own = {id(x) for x in a.posonlyargs + a.args + a.kwonlyargs + [y for y in (a.vararg, a.kwarg) if y is not None]}
+    bound, excluded = set(), set()
+    for n in ast.walk(fn):
+        if isinstance(n, ast.Name) and isinstance(n.ctx, (ast.Store, ast.Del)):
+            bound.add(n.id)
+        elif isinstance(n, ast.arg) and id(n) not in own:
+            bound.add(n.arg)
+        elif isinstance(n, ast.ExceptHandler) and n.name:
+            bound.add(n.name)
+        elif isinstance(n, (ast.Global, ast.Nonlocal)):
+            excluded.update(n.names)
+    return bound - fn_params(fn) - excluded
+
+
+def alpha_map(fn, nodes, keep=()):
+    """local name -> L<k>, k = rank of its first occurrence (source order) in `nodes`"""
+    local = fn_locals(fn) - set(keep)
+    out = {}
+
+    def walk(n):  # depth first, field order = reading order of the PRINTED (canonical) statements
+        name = n.id if isinstance(n, ast.Name) else n.arg if isinstance(n, ast.arg) else n.name if isinstance(n, ast.ExceptHandler) else None
+        if name in local and name not in out:
+            out[name] = f"L{len(out)}"
+        for c in ast.iter_child_nodes(n):
+            walk(c)
+
+    for root in nodes:
+        walk(root)
+    return out
+
+
+def fn_stmts(fn, roles=None):
+    """the whole body of fn, canonical shapes, locals alpha-renamed"""
+    import copy
+
+    fn = copy.deepcopy(fn)
+    body = canon_block(strip_doc(fn.body))
+    m = alpha_map(fn, body, keep=(roles or {}).keys())
+    m.update(roles or {})
+    return [norm(s, m) for s in body]
 
 
 def find_class(tree, name):
@@ -203,7 +318,38 @@ def _assigns_attr(st, attr):
     return isinstance(st, ast.Assign) and any(isinstance(t, ast.Attribute) and t.attr == attr for t in st.targets)
 
 
-def dispatcher_reset(fn):
+def dispatcher_roles(fn):
+    """the dispatcher's locals the offset hand-over depends on, resolved by WHAT THEY ARE BOUND TO:
+    conn    := the local assigned `<..>Connection(...)`
+    HANDLER := the local assigned `self.commands_mapping.get(<CMD>)`, CMD a plain name
+    REST    := the other name of the two-name tuple assignment that binds CMD (`CMD, REST = <parsed command>`)
+    exactly one binding of each, else Unclassified (fail closed)"""
+    conn, handler, cmd = [], [], []
+    for n in ast.walk(fn):
+        if isinstance(n, ast.Assign) and len(n.targets) == 1 and isinstance(n.targets[0], ast.Name) and isinstance(n.value, ast.Call):
+            f = n.value.func
+            if norm(f).split(".")[-1] == "Connection":
+                conn.append(n.targets[0].id)
+            elif norm(f) == "self.commands_mapping.get" and len(n.value.args) == 1 and not n.value.keywords and isinstance(n.value.args[0], ast.Name):
+                handler.append(n.targets[0].id)
+                cmd.append(n.value.args[0].id)
+    if len(conn) != 1 or len(handler) != 1:
+        raise Unclassified(f"dispatcher: connection / handler binding not unique: {conn} {handler}")
+    rest = []
+    for n in ast.walk(fn):
+        if isinstance(n, ast.Assign) and len(n.targets) == 1 and isinstance(n.targets[0], ast.Tuple):
+            names = [e.id if isinstance(e, ast.Name) else None for e in n.targets[0].elts]
+            if len(names) == 2 and names[0] == cmd[0] and names[1] is not None:
+                rest.append(names[1])
+    if len(set(rest)) != 1:
+        raise Unclassified(f"dispatcher: `{cmd[0]}, <rest> = ...` binding not unique: {rest}")
+    roles = {conn[0]: "conn", handler[0]: "HANDLER", cmd[0]: "CMD", rest[0]: "REST"}
+    if len(roles) != 4:
+        raise Unclassified(f"dispatcher: roles collide: {roles}")
+    return roles, conn[0]
+
+
+def dispatcher_reset(fn, roles):
     """the statement list of the dispatcher in which connection.restart_offset is cleared: normalised
     statements of that block up to and including the LAST statement that touches restart_offset /
     transfer_offset.  Both the repaired shape (hand-over `if cmd in (..): transfer_offset = restart_offset`
@@ -232,7 +378,10 @@ def dispatcher_reset(fn):
                 if isinstance(block[i], ast.If):
                     inner.add(id(block[i]))
             if idx:
-                found.append([norm(x, {"connection": "conn"}) for x in block[: idx[-1] + 1]])
+                sl = block[: idx[-1] + 1]
+                m = alpha_map(fn, sl, keep=roles.keys())  # the remaining locals (e.g. the task set): by first occurrence
+                m.update(roles)
+                found.append([norm(x, m) for x in sl])
     if len(found) != 1:
         raise Unclassified(f"dispatcher: expected exactly one block that assigns restart_offset / transfer_offset, found {len(found)}")
     return found[0]
@@ -296,11 +445,15 @@ def offset_assignments(fn):
 
 def awaiting_prefix(fn):
     """get_stream: the statements up to the last one that awaits (the commands sent, in order)"""
-    b = strip_doc(fn.body)
+    import copy
+
+    fn = copy.deepcopy(fn)
+    b = canon_block(strip_doc(fn.body))
     last = max((i for i, st in enumerate(b) if any(isinstance(n, ast.Await) for n in ast.walk(st))), default=None)
     if last is None:
         raise Unclassified(f"{fn.name}: nothing awaited")
-    return [norm(st) for st in b[: last + 1]]
+    m = alpha_map(fn, b[: last + 1])  # a prefix from the first statement on: every binding is in the text
+    return [norm(st, m) for st in b[: last + 1]]
 
 
 def generate(src_dir):
@@ -354,10 +507,11 @@ def generate(src_dir):
     stor_open, stor_body, stor_ctx, stor_prog = worker_shape(nested_fn(stor, "stor_worker"))
     retr_open, retr_body, retr_ctx, retr_prog = worker_shape(nested_fn(retr, "retr_worker"))
     rest_body = offset_assignments(rest)
-    reset = dispatcher_reset(disp)
+    disp_roles, disp_conn = dispatcher_roles(disp)
+    reset = dispatcher_reset(disp, disp_roles)
 
     it = find_class(common, "AsyncStreamIterator")
-    anext = stmts(find_method(it, "__anext__").body)
+    anext = fn_stmts(find_method(it, "__anext__"))
     tsio = find_class(common, "ThrottleStreamIO")
     sio = find_class(common, "StreamIO")
     block_size = None
@@ -372,7 +526,7 @@ def generate(src_dir):
     # where the backend object of a session comes from: self.path_io_factory = <callee>(...) in
     # __init__, connection.path_io = <callee>(...) in the dispatcher
     wiring = []
-    for fn, target_base, target_attr in ((find_method(srv, "__init__"), "self", "path_io_factory"), (disp, "connection", "path_io")):
+    for fn, target_base, target_attr in ((find_method(srv, "__init__"), "self", "path_io_factory"), (disp, disp_conn, "path_io")):
         for n in ast.walk(fn):
             if isinstance(n, ast.Assign) and any(
                 isinstance(tg, ast.Attribute) and isinstance(tg.value, ast.Name) and tg.value.id == target_base and tg.attr == target_attr
@@ -381,7 +535,8 @@ def generate(src_dir):
                 if not isinstance(n.value, ast.Call):
                     raise Unclassified(f"{fn.name}: {target_base}.{target_attr} is not assigned from a call")
                 args = [norm(a) for a in n.value.args]
-                wiring.append(f"{target_base}.{target_attr} = {norm(n.value.func)}({', '.join(args + (['**kw'] if n.value.keywords else []))})")
+                shown = "connection" if fn is disp else target_base
+                wiring.append(f"{shown}.{target_attr} = {norm(n.value.func)}({', '.join(args + (['**kw'] if n.value.keywords else []))})")
     if len(wiring) != 2:
         raise Unclassified(f"backend wiring: expected 2 assignments, found {wiring}")
 
@@ -422,7 +577,12 @@ def generate(src_dir):
             if isinstance(st, ast.If):
                 inner = [x for x in st.body if isinstance(x, ast.AsyncWith)]
                 if len(inner) == 1:
-                    return [norm(inner[0], {"source": "SRC", "destination": "DST"})]
+                    # the targets of the `async with` / `async for` are bound inside the printed statement
+                    bound_here = {n.id for n in ast.walk(inner[0]) if isinstance(n, ast.Name) and isinstance(n.ctx, ast.Store)}
+                    m = {k: v for k, v in alpha_map(fn, [inner[0]]).items() if k in bound_here}
+                    m = {k: f"L{i}" for i, k in enumerate(m)}
+                    m.update({"source": "SRC", "destination": "DST"})
+                    return [norm(inner[0], m)]
         raise Unclassified(f"{what}: file branch with an async with not found")
 
     out = [emit.HEADER.format(src=str(src_dir))]
@@ -445,23 +605,23 @@ def generate(src_dir):
         ("xf_reset_stmt", slist(reset)),
         ("xf_offset_init", slist(connection_offset_init(disp))),
         ("xf_observer_state", slist(observer_state(srv))),
-        ("xf_file_ctx_aexit", slist(stmts(find_method(ctxcls, "__aexit__").body))),
+        ("xf_file_ctx_aexit", slist(fn_stmts(find_method(ctxcls, "__aexit__")))),
         ("xf_worker_fs_calls", slist(worker_fs_calls(nested_fn(stor, "stor_worker")) + ["--"] + worker_fs_calls(nested_fn(retr, "retr_worker")))),
         ("xf_backend_wiring", slist(wiring)),
-        ("xf_nursery_call", slist(stmts(find_method(nursery, "__call__").body))),
+        ("xf_nursery_call", slist(fn_stmts(find_method(nursery, "__call__")))),
         ("xf_iter_anext", slist(anext)),
-        ("xf_iter_by_block_stream", slist(stmts(find_method(tsio, "iter_by_block").body))),
-        ("xf_throttle_read", slist(stmts(find_method(tsio, "read").body))),
-        ("xf_throttle_write", slist(stmts(find_method(tsio, "write").body))),
-        ("xf_stream_read", slist(stmts(find_method(sio, "read").body))),
-        ("xf_stream_write", slist(stmts(find_method(sio, "write").body))),
+        ("xf_iter_by_block_stream", slist(fn_stmts(find_method(tsio, "iter_by_block")))),
+        ("xf_throttle_read", slist(fn_stmts(find_method(tsio, "read")))),
+        ("xf_throttle_write", slist(fn_stmts(find_method(tsio, "write")))),
+        ("xf_stream_read", slist(fn_stmts(find_method(sio, "read")))),
+        ("xf_stream_write", slist(fn_stmts(find_method(sio, "write")))),
         ("xf_default_block_size", emit.z(block_size) + "%Z"),
-        ("xf_iter_by_block_file", slist(stmts(find_method(ctxcls, "iter_by_block").body))),
+        ("xf_iter_by_block_file", slist(fn_stmts(find_method(ctxcls, "iter_by_block")))),
         ("xf_get_stream", slist(awaiting_prefix(find_method(cl, "get_stream")))),
         ("xf_passive_first_cmd", S(first_cmd)),
         ("xf_stream_verbs", "[" + "; ".join(f"({S(n)}, {slist(a)})" for n, a in verbs) + "]"),
-        ("xf_finish", slist(stmts(find_method(dstream, "finish").body))),
-        ("xf_aexit", slist(stmts(find_method(dstream, "__aexit__").body))),
+        ("xf_finish", slist(fn_stmts(find_method(dstream, "finish")))),
+        ("xf_aexit", slist(fn_stmts(find_method(dstream, "__aexit__")))),
         ("xf_upload_file", slist(file_branch(find_method(cl, "upload"), "upload"))),
         ("xf_download_file", slist(file_branch(find_method(cl, "download"), "download"))),
     ]
